@@ -171,7 +171,31 @@ def stress_campaign(chk, cfg, prop, plan, budget_s, label):
         chk.cov["traces_validated_against_impl"] += 0
         bad = None
         if rc == -999:
-            bad = "watchdog: no result within %d s (deadlock / livelock?)" % budget_s
+            # many spinning threads of an instrumented build on a machine whose cores are busy elsewhere can take arbitrarily long
+            # (a preempted holder makes everybody spin through their time slices): before calling it a hang the same program is
+            # run once more uninstrumented with at most four threads and a quarter of the work — a lock that is really never
+            # released, or a call that really never returns, hangs there too
+            hung = True
+            try:
+                exe2, _ = build_stress(cfg, variant, force_plain=True)
+                a2 = list(args)
+                if len(a2) >= 2 and isinstance(a2[0], int) and isinstance(a2[1], int):
+                    a2 = [min(a2[0], 4), max(1, a2[1] // 4)] + a2[2:]
+                rc2, out2, err2, _r2 = run_stress(exe2, mode, a2, timeout=budget_s)
+                chk.cov["evaluations"] += 1
+                if rc2 != -999:
+                    hung = False
+                    chk.bump("watchdog of a loaded machine, confirmed slow only")
+                    rc, out, err, races, args = rc2, out2, err2, [], a2
+                    tsan = False
+            except pv.BuildError:
+                pass
+            if hung:
+                bad = "watchdog: no result within %d s, twice (instrumented, then uninstrumented with at most 4 threads): deadlock / livelock" % budget_s
+        if bad is None and rc == -999:
+            pass
+        elif bad is not None:
+            pass
         elif rc not in (0, 66, 98):
             bad = "exit status %s: %s" % (rc, err[-400:])
         else:
